@@ -278,6 +278,7 @@ static int c07_run(Ctx &ctx) {
     int nreq = (int)g::pick(2, 7);
     c.seti("nreq", nreq);
     g::SOpts o;
+    o.sha1_salt_max = 330;  // the output field doubles as a work area for some methods: long salts reach far into it
     for (int i = 0; i < nreq; i++) {
       int k = g::wpick({7, 1, 1, 1});
       Bytes s = k == 0 ? g::valid_setting(g::any_method(), o).s : k == 1 ? Bytes("*0") : k == 2 ? g::mutate(g::valid_setting(g::any_method(), o).s, 1, true) : Bytes("$zz$x");
